@@ -554,6 +554,15 @@ func (v *PolicyVerifier) VerifyRelativeForRef(ctx context.Context, firstEntry, l
 						slog.Debug("Setting current policy...")
 					}
 
+					// The new policy is about to take effect for the entries
+					// that follow: its rule files must be signed as its own
+					// root of trust requires, exactly as LoadState demands of a
+					// policy it returns
+					slog.Debug("Validating new policy's state...")
+					if err := newPolicy.Verify(ctx); err != nil {
+						return fmt.Errorf("new policy has invalidly signed metadata: %w", err)
+					}
+
 					currentPolicy = newPolicy
 
 					if v.persistentCacheEnabled {
